@@ -107,7 +107,7 @@ def fc_task(task):
     R2, Z2 = np.meshgrid(R1, Z1, indexing="ij")
     cps0 = base_cps(name)
     viol, st = [], dict(cases=0, points=0, order_skipped=0, worst_pos=0.0, worst_res=0.0, worst_psi=0.0,
-                        worst_pos_cells_tight=0.0, sample=None)
+                        worst_pos_cells_tight=0.0, worst_pos_model=0.0, sample=None)
     for sg in task["signs"]:
         for (sa, sb) in shifts:
             fam = fams.Fam(name, (sa * dR, sb * dZ), sg)
@@ -172,6 +172,9 @@ def _judge_fc(case, fam, ref, exp, op, xp, cell, dom, viol, st):
         used.update(near)
         d = float(np.hypot(g["R"] - c["R"], g["Z"] - c["Z"]))
         st["worst_pos"] = max(st["worst_pos"], d / tol_pos)
+        if atol <= 1e-10 and wmin:
+            model = max(dR, dZ) ** 3 * 12.0 * scale / wmin**4 / c["smin"]
+            st["worst_pos_model"] = max(st["worst_pos_model"], d / model)
         if atol <= 1e-10:
             st["worst_pos_cells_tight"] = max(st["worst_pos_cells_tight"],
                                               float(np.hypot((g["R"] - c["R"]) / dR, (g["Z"] - c["Z"]) / dZ)))
@@ -391,6 +394,8 @@ def eq_task(task):
                         error=None if exc is None else repr(exc)[:200])
 
             def add(sig, **d):
+                if via == "psi_sol":
+                    sig += " | SOL edge given as psi_sol"
                 viol.append(("equilibrium | " + sig, dict(info, **d), case))
 
             if nfound != len(xr):
@@ -582,11 +587,13 @@ def tasks_for(tier, seed):
             A.append(dict(kind="fc", family=name, res=list(res), shifts=sh, signs=[1.0, -1.0], atols=ATOLS))
     # the elliptical hills: quick tier on the coarsest and on the non-square grid with the tests'
     # atol; thorough tier the full product
-    ell_res = [(33, 33), (65, 97)] if tier == "quick" else resolutions(tier)
+    # (on the larger elongation x tilt lattice, four resolutions, both atol, the quick tier's 32
+    # sub-cell shifts)
+    ell_res = [(33, 33), (65, 97)] if tier == "quick" else [(33, 33), (65, 97), (64, 64), (129, 129)]
     ell_atols = ATOLS[:1] if tier == "quick" else ATOLS
     for name in ell_families(tier):
         for res in ell_res:
-            A.append(dict(kind="fc", family=name, res=list(res), shifts=sh, signs=[1.0, -1.0], atols=ell_atols))
+            A.append(dict(kind="fc", family=name, res=list(res), shifts=sh_sp, signs=[1.0, -1.0], atols=ell_atols))
     B = []
     eq_res = [(65, 65)] if tier == "quick" else [(65, 65), (33, 65), (129, 129)]
     walls = ["W0", "W4", "Wx+", "Wx-"]
@@ -638,6 +645,7 @@ def run(ctx, only=None):
             ctx.setmax("worst_residual_over_atol", s["worst_res"])
             ctx.setmax("worst_psi_error_over_tolerance", s["worst_psi"])
             ctx.setmax("worst_position_error_cells_at_tight_atol", s["worst_pos_cells_tight"])
+            ctx.setmax("worst_position_error_over_h3_model_at_tight_atol", s["worst_pos_model"])
         elif kind == "eq":
             ctx.setmax("worst_strike_point_distance_over_tolerance", s["worst_strike"])
             ctx.setmax("worst_kept_xpoint_distance_m", s["worst_xpos"])
